@@ -67,13 +67,13 @@ Qed.
 (* the truncated / stream-end cases never fabricate a message *)
 Lemma frames_step_trunc f L t d r :
   4 <= d < 4294967296 -> d - 4 <= eff_limit L -> takeZ (d - 4) r = None ->
-  fst (frames_fuel (S f) L (t :: be32 d ++ r)) = [].
+  forall x, In x (fst (frames_fuel (S f) L (t :: be32 d ++ r))) -> x = FTail.
 Proof.
   intros Hd Ho Ht. destruct (be32_shape d) as (a & b & c & e & Hs & Hv). specialize (Hv ltac:(lia)).
   rewrite Hs. cbn [app frames_fuel]. rewrite Hv.
   destruct (Z.ltb_spec (d - 4) 0); [lia|].
   destruct (Z.gtb_spec (d - 4) (eff_limit L)); [lia|].
-  rewrite Ht. reflexivity.
+  rewrite Ht. destruct r; cbn; intuition.
 Qed.
 
 (* ---------- Bind ---------- *)
